@@ -176,6 +176,12 @@ def run_unit(u, tier, root, build):
         else:
             o['complete'] = h.get('complete', 'loop-free over the full input domain')
         res['obligations'].append(o)
+        if r['status'] == 'FAILED' and r['failed_checks'] and all('unwinding assertion' in c for c in r['failed_checks']):
+            # the only failed check is the unwinding assertion: the stated bound was too small
+            # for this code, nothing was refuted
+            o['status'] = 'undecided'
+            res['undecided'] = (res['undecided'] or '') + ' harness %s: unwinding bound exceeded (no verdict);' % h['name']
+            continue
         if r['status'] == 'FAILED':
             f = {'obligation': label, 'props': props, 'message': '; '.join(r['failed_checks'])[:500] or 'verification failed',
                  'rendered': r['text'], 'label': label, 'block': h['name'], 'serves': props, 'harness': h['name']}
